@@ -413,14 +413,14 @@ def module_containers(module) -> set:
     return out
 
 
-def hand_memoised(fi: FunctionInfo) -> bool:
+def hand_memoised(fi: FunctionInfo, want_returns: bool = False):
     """A function that keeps what it returns in a module-level (or class-level / instance) container: `G[key] = v ... return v`,
     `return G[key]`, `v = G.get(key) ... return v`.  Its result is the same object for every call with the same key."""
     if isinstance(fi.node, ast.Lambda):
-        return False
+        return [] if want_returns else False
     G = module_containers(fi.module)
     if not G:
-        return False
+        return [] if want_returns else False
 
     def is_entry(e):
         if isinstance(e, ast.Subscript) and isinstance(e.value, ast.Name) and e.value.id in G:
@@ -444,19 +444,26 @@ def hand_memoised(fi: FunctionInfo) -> bool:
         elif isinstance(n, ast.Expr) and isinstance(n.value, ast.Call) and isinstance(n.value.func, ast.Attribute) and isinstance(n.value.func.value, ast.Name) \
                 and n.value.func.value.id in G and n.value.func.attr in ("setdefault", "append", "__setitem__") and n.value.args and isinstance(n.value.args[-1], ast.Name):
             stored.add(n.value.args[-1].id)
+    found = []
     for r in returns_of(fi.node):
         if r.value is None:
             continue
         if is_entry(r.value):
-            return True
+            found.append((r, True))
+            continue
         if isinstance(r.value, ast.Name) and (r.value.id in stored or r.value.id in loaded):
-            return True
+            found.append((r, True))
+            continue
         # a shallow copy of the cached mapping: the values (lists, arrays) are still the cached objects
         v = r.value
         if isinstance(v, ast.Call) and ((call_name(v) in ("dict", "Bunch", "OrderedDict") and v.args and isinstance(v.args[0], ast.Name) and v.args[0].id in (stored | loaded))
                                         or (call_name(v) == "copy" and isinstance(v.func, ast.Attribute) and isinstance(v.func.value, ast.Name) and v.func.value.id in (stored | loaded))):
-            return "copy"
-    return False
+            found.append((r, "copy"))
+    if want_returns:
+        return found
+    if not found:
+        return False
+    return True if any(k is True for _, k in found) else "copy"
 
 
 def shared_returning(repo: Repo) -> Dict[str, str]:
@@ -512,7 +519,7 @@ def shared_kind(repo: Repo, fi: FunctionInfo, du: DefUse, e: ast.AST, at: ast.AS
     if isinstance(base, ast.Call):
         q = repo.resolve_call(fi, base)
         if q in shared:
-            return shared[q]
+            return call_result_shared(repo, fi, base, q, shared)
         nm = call_name(base)
         # shallow copies of a dict keep its (shared) values
         if nm in ("copy",) and isinstance(base.func, ast.Attribute):
@@ -609,6 +616,77 @@ def _dictlike_returns(repo: Repo, fi: FunctionInfo, depth: int = 0) -> bool:
     return True
 
 
+def live_returns(repo: Repo, caller: FunctionInfo, call: ast.Call, callee: FunctionInfo):
+    """The return statements of `callee` that this call can reach, given the constants it passes (or leaves to their defaults) for parameters that are
+    tested as plain flags (`if cache:` / `if not cache:`).  A cached branch selected by a flag that the call leaves off does not make this call's result shared."""
+    from .calls import bind
+    from .cfg import CFG, conjuncts
+    rets = [r for r in returns_of(callee.node) if r.value is not None]
+    try:
+        b = bind(call, callee)
+    except Exception:
+        return rets
+    consts = {}
+    dflt = callee.defaults()
+    for p_ in callee.params:
+        a = b.bound.get(p_, dflt.get(p_))
+        if a is not None:
+            ok, v = const_value(a)
+            if ok:
+                consts[p_] = v
+    if b.star_args or b.star_kwargs or not consts:
+        return rets
+    # a flag parameter that the callee re-binds is not a constant any more
+    stored = {n.id for n in ast.walk(callee.node) if isinstance(n, ast.Name) and isinstance(n.ctx, ast.Store)}
+    consts = {k: v for k, v in consts.items() if k not in stored}
+    if not consts:
+        return rets
+    cfg = CFG(callee.node)
+    out = []
+    for r in rets:
+        dead = False
+        for t, pol in cfg.guards(cfg.node_for(r)):
+            for tt, pp in conjuncts(t, pol):
+                if isinstance(tt, ast.Name) and tt.id in consts and bool(consts[tt.id]) != pp:
+                    dead = True
+                if isinstance(tt, ast.Compare) and len(tt.ops) == 1 and isinstance(tt.left, ast.Name) and tt.left.id in consts and isinstance(tt.ops[0], (ast.Is, ast.IsNot, ast.Eq, ast.NotEq)):
+                    okc, cv = const_value(tt.comparators[0])
+                    if okc:
+                        val = (consts[tt.left.id] is cv) if isinstance(tt.ops[0], (ast.Is, ast.IsNot)) else (consts[tt.left.id] == cv)
+                        if isinstance(tt.ops[0], (ast.IsNot, ast.NotEq)):
+                            val = not val
+                        if val != pp:
+                            dead = True
+        # an earlier `if flag: return ...` that always returns makes everything after it dead for flag == True (handled by the guards of the CFG: the
+        # fall-through carries `not flag`)
+        if not dead:
+            out.append(r)
+    return out
+
+
+def call_result_shared(repo: Repo, caller: FunctionInfo, call: ast.Call, q: str, shared: Dict[str, str]) -> Optional[str]:
+    """kind of sharing of THIS call's result: the callee's kind, unless the returns that make it shared cannot be reached with the flags this call passes"""
+    kind = shared.get(q)
+    if kind is None or not repo.has_fn(q):
+        return kind
+    callee = repo.fn(q)
+    if is_memoised(callee) is True and not hand_memoised(callee):
+        return kind        # a decorator cache: every return is cached
+    live = live_returns(repo, caller, call, callee)
+    allr = [r for r in returns_of(callee.node) if r.value is not None]
+    if len(live) == len(allr):
+        return kind
+    du = DefUse(callee.node)
+    ks = {shared_kind(repo, callee, du, r.value, r, shared) for r in live} - {None}
+    cached = hand_memoised(callee, want_returns=True)
+    for r, k in cached:
+        if any(r is x for x in live):
+            ks.add("dict" if k == "copy" else kind)
+    if not ks:
+        return None
+    return "dict" if ks == {"dict"} else "array"
+
+
 def shared_dict_functions(repo: Repo) -> set:
     """Functions that hand out THE SAME mapping object on every call with the same arguments (memoised and mapping-valued), and - to a fixpoint -
     functions that return the result of such a function unchanged."""
@@ -646,7 +724,20 @@ def is_shared_dict_object(repo: Repo, fi: FunctionInfo, du: DefUse, e: ast.AST, 
     if not sd or depth > 5 or e is None:
         return False
     if isinstance(e, ast.Call):
-        return repo.resolve_call(fi, e) in sd
+        q = repo.resolve_call(fi, e)
+        if q not in sd:
+            return False
+        callee = repo.fn(q)
+        if is_memoised(callee) is True and not hand_memoised(callee) and any("lru_cache" in src(d_) or "cache" in src(d_) for d_ in getattr(callee.node, "decorator_list", [])):
+            return True
+        live = live_returns(repo, fi, e, callee)
+        duc = DefUse(callee.node)
+        for r in live:
+            v = r.value
+            v = expand_name(duc, v, r) if isinstance(v, ast.Name) else v
+            if isinstance(v, ast.Call) and repo.resolve_call(callee, v) in sd:
+                return True
+        return False
     if isinstance(e, ast.IfExp):
         return is_shared_dict_object(repo, fi, du, e.body, at, depth + 1) or is_shared_dict_object(repo, fi, du, e.orelse, at, depth + 1)
     if isinstance(e, ast.Name):
